@@ -459,6 +459,12 @@ func init() {
 	reg("internal/bytealg.IndexByteString", func(in *Interp, caller *frame, pos token.Pos, fn *ssa.Function, args []Value) Value {
 		return in.indexByte(in.strBytes(args[0].(Str)), term(args[1]))
 	})
+	reg("internal/bytealg.IndexString", func(in *Interp, caller *frame, pos token.Pos, fn *ssa.Function, args []Value) Value {
+		return in.indexSub(in.strBytes(args[0].(Str)), in.strBytes(args[1].(Str)))
+	})
+	reg("internal/bytealg.Index", func(in *Interp, caller *frame, pos token.Pos, fn *ssa.Function, args []Value) Value {
+		return in.indexSub(sliceTerms(args[0]), sliceTerms(args[1]))
+	})
 	reg("internal/bytealg.CountString", func(in *Interp, caller *frame, pos token.Pos, fn *ssa.Function, args []Value) Value {
 		return in.countByte(in.strBytes(args[0].(Str)), term(args[1]))
 	})
